@@ -32,6 +32,12 @@ def planted(rng, n):
             continue
         for r in rows:
             r[k] = F(float(-sum((w(j, a) - w(j, b)) * r[j] for j in range(n + 1) if j != k) / den))
+        pts = list(zip(*rows))
+        if any(pts[i] == pts[i + 1] for i in range(len(pts) - 1)):
+            continue            # a repeated control point (zero tangent): finding F7's class, pinned separately
+        p0, p1 = pts[0], next(q for q in pts if q != pts[0])
+        if all((p1[0] - p0[0]) * (q[1] - p0[1]) - (p1[1] - p0[1]) * (q[0] - p0[0]) == 0 for q in pts):
+            continue            # all control points on one line: the curve overlaps itself, not finitely many crossings
         if all(abs(x) < 64 for r in rows for x in r):
             return rows, a, b
 
